@@ -389,7 +389,8 @@ PS_gen  == WithPred({<<"//", "", STAR>>}, NotCore)
 PS_q1   == IF Tier # 0 THEN {} ELSE WithPred({<<"//", "", STAR>>}, Level2) \cup WithPred({<<"/", "", STAR>>}, Atoms)
                                        \cup WithPred({<<"/", "self", STAR>>, <<"//", "self", STAR>>}, NotCore)
 PS_q22  == WithPred({<<"/", "", STAR>>}, Atoms)
-PS_q21  == WithPred({<<"//", "", ASTAR>>}, NotCore)
+\* (the explicit /descendant-or-self@*[P]/ in front of a child step must not be mistaken for //)
+PS_q21  == WithPred({<<"//", "", ASTAR>>, <<"/", "descendant-or-self", STAR>>}, NotCore)
 PS_t1   == IF Tier # 1 THEN {} ELSE WithPred({<<"//", "", STAR>>, <<"/", "descendant-or-self", STAR>>}, Level3)
                                        \cup WithPred({<<"/", "", ASTAR>>, <<"/", "self", STAR>>}, Level2)
 PS_t2   == IF Tier # 1 THEN {} ELSE WithPred({<<"//", "", STAR>>}, Level2) \cup WithPred({<<"/", "descendant-or-self", ASTAR>>}, Atoms)
@@ -479,10 +480,18 @@ ErrClass(steps, ps) ==
            nullglob |-> (IF a /\ b /\ c THEN "ok" ELSE IF ~a /\ ~b /\ ~c THEN "error" ELSE "either"),
            mech |-> (IF b THEN "ok" ELSE "error")]
 
-\* a package matched by a multi-hop step below another match, separated by non-matching packages
+\* a package matched by a multi-hop step below another match, separated by non-matching packages.
+\* Invariant under the abbreviations of the manual: a child step that follows /descendant-or-self@*/
+\* (written out or as //, possibly with bare self@* steps in between) is the multi-hop step //x.
+TrivSelf(st) == st.axis \in {"self", "."} /\ st.test = STAR /\ st.pred = <<>>
+IsDos(st) == st.axis = "descendant-or-self" /\ st.test = STAR /\ st.pred = <<>>
+AfterDos(steps, k) ==
+  /\ steps[k].axis \in {"", "child"} /\ steps[k].sep = "/"
+  /\ \E j \in 1..(k-1) : /\ \A i \in (j+1)..(k-1) : TrivSelf(steps[i]) /\ steps[i].sep = "/"
+                         /\ IsDos(steps[j]) \/ (steps[j].sep = "//" /\ TrivSelf(steps[j]))
 NestedMatch(G, steps, ps) ==
   \E k \in 1..Len(steps) :
-    /\ steps[k].sep = "//" \/ steps[k].axis \in MultiHop
+    /\ steps[k].sep = "//" \/ steps[k].axis \in MultiHop \/ AfterDos(steps, k)
     /\ Cardinality(ps[k+1]) >= 2
     /\ LET N == Ends(ps[k+1])
            dir == steps[k].sep # "//" /\ steps[k].axis \in {"direct-descendant", "direct-descendant-or-self"}
